@@ -86,6 +86,12 @@ GENERATORS = [
      os.path.join("..", "Lemmas", "GenTieDerive.lean")),
     ("gen_derive_vties", ("miniconf_derive/src/tree.rs", "miniconf_derive/src/field.rs", os.path.join(HARNESS, "src", "gen_types.rs")),
      os.path.join("..", "Lemmas", "GenTieDeriveValue.lean")),
+    # the arms of the generated `match index { … }` of all four by-key functions (deny / accessor / validator chains), and
+    # their comparison with the declared attributes (`Arm.shapeOf`), kernel-checked
+    ("gen_derive_arms", ("miniconf_derive/src/tree.rs", "miniconf_derive/src/field.rs", os.path.join(HARNESS, "src", "gen_types.rs")),
+     "DeriveArms.lean"),
+    ("gen_derive_arm_ties", ("miniconf_derive/src/tree.rs", "miniconf_derive/src/field.rs", os.path.join(HARNESS, "src", "gen_types.rs")),
+     os.path.join("..", "Lemmas", "GenTieDeriveArms.lean")),
 ]
 
 
